@@ -165,3 +165,166 @@ mod replay {
         }
     }
 }
+
+/// History replays: each test drives the REAL `HtlcManager` (mocked node side) through one
+/// specific history that a verifier obligation identified, and asserts the property.
+/// A test fails exactly when the real code exhibits the violation.
+#[cfg(all(test, feature = "verif"))]
+mod history {
+    use std::{sync::Arc, time::{Duration, SystemTime}};
+
+    use anyhow::anyhow;
+    use lightning_invoice::{Currency, InvoiceBuilder, PaymentSecret};
+    use secp256k1::{
+        hashes::{sha256, Hash},
+        PublicKey, Secp256k1, SecretKey,
+    };
+
+    use crate::{
+        block_watcher::MockBlockProvider,
+        email::MockNotificationService,
+        htlc_manager::{HtlcManager, HtlcManagerParams},
+        messages::{Htlc, HtlcAcceptedRequest, HtlcAcceptedResponse, Onion, TrampolineRoutingPolicy},
+        payment_provider::MockPaymentProvider,
+        store::{AttemptId, MockDatastore, PaymentState},
+        tlv::{SerializedTlvStream, TlvEntry, ToBytes},
+    };
+
+    fn key(last: u8) -> SecretKey {
+        let mut k = [0x11u8; 32];
+        k[31] = last;
+        SecretKey::from_slice(&k).unwrap()
+    }
+
+    fn invoice(preimage: &[u8; 32], amount: Option<u64>) -> String {
+        let mut b = InvoiceBuilder::new(Currency::Bitcoin)
+            .description("verif".into())
+            .payment_hash(sha256::Hash::hash(preimage))
+            .payment_secret(PaymentSecret([42u8; 32]))
+            .timestamp(SystemTime::UNIX_EPOCH)
+            .min_final_cltv_expiry_delta(144);
+        if let Some(a) = amount {
+            b = b.amount_milli_satoshis(a);
+        }
+        b.build_signed(|h| Secp256k1::new().sign_ecdsa_recoverable(h, &key(2)))
+            .unwrap()
+            .to_string()
+    }
+
+    fn request(htlc_preimage: &[u8; 32], bolt11: &str, amount: u64) -> HtlcAcceptedRequest {
+        let metadata = SerializedTlvStream::from(vec![TlvEntry {
+            typ: 33001,
+            value: bolt11.as_bytes().to_vec(),
+        }]);
+        HtlcAcceptedRequest {
+            htlc: Htlc {
+                amount_msat: amount,
+                id: 0,
+                cltv_expiry: 1008,
+                cltv_expiry_relative: 1008,
+                payment_hash: sha256::Hash::hash(htlc_preimage).to_byte_array().to_vec(),
+                short_channel_id: "0x0x0".parse().unwrap(),
+            },
+            onion: Onion {
+                forward_msat: Some(amount),
+                payload: SerializedTlvStream::from(vec![TlvEntry {
+                    typ: 16,
+                    value: SerializedTlvStream::to_bytes(metadata),
+                }]),
+                short_channel_id: None,
+                total_msat: Some(amount),
+            },
+        }
+    }
+
+    fn manager(
+        store: MockDatastore,
+        provider: MockPaymentProvider,
+    ) -> HtlcManager<MockBlockProvider, MockNotificationService, MockPaymentProvider, MockDatastore> {
+        let mut block_provider = MockBlockProvider::new();
+        block_provider.expect_current_height().returning(|| 0);
+        let mut notification_service = MockNotificationService::new();
+        notification_service.expect_notify_payment_failed().returning(|_| ());
+        HtlcManager::new(HtlcManagerParams {
+            allow_self_route_hints: true,
+            block_provider: Arc::new(block_provider),
+            cltv_delta: 34,
+            local_pubkey: PublicKey::from_secret_key(&Secp256k1::new(), &key(1)),
+            mpp_timeout: Duration::from_millis(200),
+            notification_service: Arc::new(notification_service),
+            payment_provider: Arc::new(provider),
+            routing_policy: TrampolineRoutingPolicy {
+                cltv_expiry_delta: 1008,
+                fee_base_msat: 0,
+                fee_proportional_millionths: 5000,
+            },
+            store: Arc::new(store),
+        })
+    }
+
+    /// C01 / C10 (D1): an HTLC whose payment hash differs from the attached invoice's must never be
+    /// settled with the invoice's preimage, and the invoice must not be paid on its behalf.
+    #[tokio::test]
+    async fn verif_history_c01_hash_mismatch() {
+        let invoice_preimage = [1u8; 32];
+        let htlc_preimage = [2u8; 32];
+        let mut store = MockDatastore::new();
+        store.expect_fetch_payment_info().returning(|_| Ok(PaymentState::Free));
+        store.expect_add_payment_attempt().returning(|_| {
+            Ok(AttemptId { attempt_id: String::from("0"), state_generation: 0 })
+        });
+        store.expect_mark_succeeded().returning(|_, _, _| Ok(()));
+        let mut provider = MockPaymentProvider::new();
+        provider.expect_pay().returning(move |_| Ok(invoice_preimage.to_vec()));
+        let m = manager(store, provider);
+        let req = request(&htlc_preimage, &invoice(&invoice_preimage, Some(1_000_000)), 1_005_000);
+        let resp = m.handle_htlc(&req).await;
+        println!("HISTORY c01_hash_mismatch response={:?}", resp);
+        if let HtlcAcceptedResponse::Resolve { payment_key } = resp {
+            assert_eq!(
+                sha256::Hash::hash(&payment_key).to_byte_array().to_vec(),
+                req.htlc.payment_hash,
+                "HTLC settled with a key that does not hash to its payment hash"
+            );
+        }
+    }
+
+    /// C02 (F-C02-a): reading the stored state fails while an earlier attempt may be in flight.
+    /// The HTLC must not be failed back (no knowledge that nothing is pending or complete).
+    #[tokio::test]
+    async fn verif_history_c02_fetch_error_fails_htlc() {
+        let preimage = [1u8; 32];
+        let mut store = MockDatastore::new();
+        store.expect_fetch_payment_info().returning(|_| Err(anyhow!("listdatastore: connection reset")));
+        let provider = MockPaymentProvider::new();
+        let m = manager(store, provider);
+        let req = request(&preimage, &invoice(&preimage, Some(1_000_000)), 1_005_000);
+        let resp = tokio::time::timeout(Duration::from_secs(2), m.handle_htlc(&req)).await;
+        println!("HISTORY c02_fetch_error response={:?}", resp);
+        assert!(
+            !matches!(resp, Ok(HtlcAcceptedResponse::Fail { .. })),
+            "HTLC failed back although the fate of a possibly interrupted attempt is unknown"
+        );
+    }
+
+    /// C06 (F-C06-a): stored state Pending and wait_payment returns an error: the call must still
+    /// be answered (here: within 2 s); on the pinned tree the lifecycle task panics in todo!().
+    #[tokio::test]
+    async fn verif_history_c06_pending_wait_error_hangs() {
+        let preimage = [1u8; 32];
+        let mut store = MockDatastore::new();
+        store.expect_fetch_payment_info().returning(|_| {
+            Ok(PaymentState::Pending {
+                attempt_id: AttemptId { attempt_id: String::from("0"), state_generation: 0 },
+                attempt_time_seconds: 0,
+            })
+        });
+        let mut provider = MockPaymentProvider::new();
+        provider.expect_wait_payment().returning(|_| Err(anyhow!("listsendpays: connection reset")));
+        let m = manager(store, provider);
+        let req = request(&preimage, &invoice(&preimage, Some(1_000_000)), 1_005_000);
+        let resp = tokio::time::timeout(Duration::from_secs(2), m.handle_htlc(&req)).await;
+        println!("HISTORY c06_pending_wait_error response={:?}", resp);
+        assert!(resp.is_ok(), "htlc_accepted call never answered (lifecycle task panicked in todo!())");
+    }
+}
